@@ -440,6 +440,10 @@ class Exec:
             return '%s.%s' % (show(self.ev(e['recv'])), e['name'])
         if k == 'LetCond':
             return '%s ~ %s' % (show(self.ev(e['init'])), hir.pp_pat(e['pat']))
+        if k == 'Path':
+            l = hir.local(e)
+            if l and isinstance(self.env.get(l[1]), Val) and self.env[l[1]].tag == 'cond':
+                return self.env[l[1]].a[0]
         v = self.ev(e)
         return show(v)
 
@@ -693,9 +697,19 @@ class Exec:
         self.block(hir.stmts_of(self.f['hir']))
         return self
 
-    def block(self, stmts):
+    def block(self, stmts, loop_body=False):
+        depth0 = len(self.ctx)
+        self._bdepth = getattr(self, '_bdepth', 0) + 1
+        if loop_body:
+            self._loop_bodies = getattr(self, '_loop_bodies', []) + [self._bdepth]
         for s in stmts:
             self.stmt(s)
+        if loop_body:
+            self._loop_bodies = self._loop_bodies[:-1]
+        self._bdepth -= 1
+        if self._bdepth > 0:
+            # guard contexts opened inside this block (early continue / break / nested return guards) end with it
+            del self.ctx[depth0:]
 
     def bind(self, pat, val):
         k = pat.get('k')
@@ -721,6 +735,10 @@ class Exec:
         k = s.get('k')
         if k == 'Let':
             if s.get('init') is not None:
+                i0 = hir.strip(s['init'])
+                if i0.get('ty') == 'bool' and s['pat'].get('k') == 'Bind' and 'Mut' not in (s['pat'].get('mode') or '') and i0.get('k') in ('Binary', 'Unary', 'MethodCall'):
+                    self.env[s['pat']['id']] = Val('cond', self.cond_text(i0))
+                    return
                 v = self.ev(s['init'])
                 if isinstance(v, Val) and v.tag in ('slin',) and s['pat'].get('k') == 'Bind':
                     # name compound scalar values: keeps guards and effects readable
@@ -744,6 +762,16 @@ class Exec:
                 return
             # early return guard: `if cond { return; }` → the rest runs under not cond
             tb = hir.stmts_of(s['then'])
+            if tb and hir.strip(tb[-1]).get('k') in ('Continue', 'Break') and not s.get('else') and getattr(self, '_loop_bodies', []) and self._loop_bodies[-1] == self._bdepth \
+                    and hir.strip(tb[-1]).get('k') == 'Continue':
+                # `if cond { ..; continue; }` directly in a loop body: the rest of this iteration runs under not cond
+                self.ctx.append('if ' + c)
+                self.block(tb[:-1])
+                self.ctx.pop()
+                self.ctx.append('if ' + _negate(c))
+                return
+            if any(n.get('k') in ('Continue', 'Break') for n in hir.nodes(s, into_closures=False)) and not any(n.get('k') in ('For', 'While', 'Loop') for n in hir.nodes(s, into_closures=False)):
+                self.unknown.append('conditional continue/break in an unrecognised position @%d' % hir.line(s))
             if tb and hir.strip(tb[-1]).get('k') == 'Ret' and not s.get('else'):
                 self.ctx.append('if ' + c)
                 self.block(tb[:-1])
@@ -768,7 +796,7 @@ class Exec:
                 name = hir.bindings(s['pat'])[0][0] if hir.bindings(s['pat']) else 'i'
                 self.bind(s['pat'], Val('idx', name))
                 self.ctx.append('for %s in %s..%s' % (name, show(lo), show(hi)))
-                self.block(hir.stmts_of(s['body']))
+                self.block(hir.stmts_of(s['body']), loop_body=True)
                 self.ctx.pop()
                 return
             if isinstance(it, Val) and it.tag == 'coll':
@@ -786,7 +814,7 @@ class Exec:
                 else:
                     self.bind(s['pat'], Val('elem', it, names[0] if names else 'x'))
                     self.ctx.append('each %s in %s' % (names[0] if names else 'x', show(it)))
-                self.block(hir.stmts_of(s['body']))
+                self.block(hir.stmts_of(s['body']), loop_body=True)
                 self.ctx.pop()
                 return
             # opaque collection: iterate symbolically, named after the iterated expression
@@ -802,7 +830,7 @@ class Exec:
             else:
                 self.bind(s['pat'], Val('elem', coll, names[0] if names else 'x'))
                 self.ctx.append('each %s in %s' % (names[0] if names else 'x', cname))
-            self.block(hir.stmts_of(s['body']))
+            self.block(hir.stmts_of(s['body']), loop_body=True)
             self.ctx.pop()
             return
         if k == 'Ret':
@@ -879,7 +907,11 @@ class Exec:
         if k in ('While', 'Loop'):
             self.unk_stmt('while/loop', s)
             return
-        if k in ('Item', 'Continue', 'Break'):
+        if k == 'Item':
+            return
+        if k in ('Continue', 'Break'):
+            if not getattr(self, '_in_guard', False):
+                self.unknown.append('continue/break outside the recognised guard form @%d' % hir.line(s))
             return
         if hir.diverges(hir.strip(s)) or (hir.strip(s).get('k') == 'Call' and 'panic' in (hir.callee(hir.strip(s)) or '')):
             self.emit('panic')
@@ -915,6 +947,59 @@ def _negate(c):
     return 'not ' + c
 
 
+def _split_and(c):
+    c = c.strip()
+    if c.startswith('(') and c.endswith(')'):
+        # outer parentheses that wrap the whole expression
+        depth = 0
+        wraps = True
+        for i, ch in enumerate(c):
+            depth += ch == '('
+            depth -= ch == ')'
+            if depth == 0 and i < len(c) - 1:
+                wraps = False
+                break
+        if wraps:
+            inner = c[1:-1]
+            parts, depth, cur = [], 0, ''
+            i = 0
+            while i < len(inner):
+                ch = inner[i]
+                depth += ch in '(['
+                depth -= ch in ')]'
+                if depth == 0 and inner.startswith(' and ', i):
+                    parts.append(cur)
+                    cur = ''
+                    i += 5
+                    continue
+                if depth == 0 and inner.startswith(' or ', i):
+                    return [c]
+                cur += ch
+                i += 1
+            parts.append(cur)
+            if len(parts) > 1:
+                return [q for p_ in parts for q in _split_and(p_)]
+    return [c]
+
+
+def norm_line(line):
+    """normal form of one effect line `ctx1 | ctx2 : effect`: loop / case contexts keep their order, every `if` context is moved behind them and all
+    conditions are merged into one sorted conjunction (an `if` that does not depend on an inner loop may stand outside it or inside it, and
+    `if a { if b {..} }` is `if a && b {..}`: the summaries are equal)"""
+    if ' : ' not in line:
+        return line
+    ctx, eff = line.split(' : ', 1)
+    parts = ctx.split(' | ')
+    if not all(p_.startswith(('each ', 'for ', 'case ', 'if ')) for p_ in parts):
+        return line
+    keep = [p_ for p_ in parts if not p_.startswith('if ')]
+    conds = sorted(set(q for p_ in parts if p_.startswith('if ') for q in _split_and(p_[3:])))
+    conds = [c_ for c_ in conds if c_ != 'true']
+    if conds:
+        keep.append('if ' + (conds[0] if len(conds) == 1 else '(%s)' % ' and '.join(conds)))
+    return ' | '.join(keep) + ' : ' + eff
+
+
 def effects_of(facts, key, param_names=None, no_vars=False):
     ex = Exec(facts, key, param_names, no_vars=no_vars).run()
     lines = ex.summary()
@@ -930,10 +1015,14 @@ def check_schema(ck, rule, key, ref, facts=None, no_vars=True):
     import re as _re
     unknown = unknown + [g for g in got if _re.search(r'<[a-zA-Z][a-zA-Z0-9_ :.-]*>', g)][:3]
     ok_u = not unknown
-    ck.ob(rule, key + '/understood', ok_u, ck.site(key), 'constructs not understood by the effect executor (not-established-by-recognised-idiom): %s' % unknown[:3], sample={'effects': len(got)})
-    gs, rs = set(got), set(ref)
+    gs, rs = set(norm_line(x) for x in got), set(norm_line(x) for x in ref)
     missing = sorted(rs - gs)
     extra = sorted(gs - rs)
+    if not ok_u:
+        # the executor met constructs it cannot summarise: neither the summary nor its difference to the schema means anything
+        ck.ob3(rule, key + '/schema', None if (missing or extra) else True, ck.site(key), 'the body contains constructs the effect executor does not understand (%s); conformance to the schema is not decided' % unknown[:2])
+        return got
+    ck.ob(rule, key + '/understood', True, ck.site(key), '', sample={'effects': len(got)})
     ck.ob(rule, key + '/schema', not missing and not extra, ck.site(key),
           'rule body does not conform to its schema — missing effects: %s ; unexpected effects: %s' % (missing[:4], extra[:4]),
           sample={'effects': got[:12]})
